@@ -33,6 +33,9 @@ type Case struct {
 	Files  []javagen.File `json:"files"`
 	Layout int            `json:"layout"`
 	Req    Req            `json:"req"`
+	// file-level byte shapes the statement's "every other byte is unchanged" covers: CRLF line ends, no final newline
+	Crlf    bool `json:"crlf"`
+	NoFinal bool `json:"noFinal"`
 }
 
 // a site the model attributes to the renamed method: its declaration(s) and the calls recorded against it
@@ -149,6 +152,12 @@ func one(raw json.RawMessage) interface{} {
 	index := map[string]int{}
 	for _, f := range c.Files {
 		text, facts := javagen.Render(f, c.Layout)
+		if c.NoFinal {
+			text = strings.TrimRight(text, "\n")
+		}
+		if c.Crlf {
+			text = strings.ReplaceAll(text, "\n", "\r\n")
+		}
 		p := filepath.Join(root, filepath.FromSlash(facts.RelPath))
 		os.MkdirAll(filepath.Dir(p), 0o755)
 		os.WriteFile(p, []byte(text), 0o644)
@@ -402,7 +411,7 @@ func gen(seed int64, n int, tier string) []interface{} {
 			newName = old + "X"
 		}
 		c := Case{Case: fmt.Sprintf("rand-%d-%d", seed, k), Files: p.Files, Layout: p.Layout,
-			Req: Req{Pkg: tf.Pkg, Cls: tf.Unit.Name, Old: old, New: newName}}
+			Req: Req{Pkg: tf.Pkg, Cls: tf.Unit.Name, Old: old, New: newName}, Crlf: r.Intn(6) == 0, NoFinal: r.Intn(6) == 0}
 		out = append(out, c)
 		k++
 	}
